@@ -188,7 +188,8 @@ def finish(ctx, explanation, trusted=()):
     for i, k in enumerate(kfs):
         if ctx.prop in k.get('properties', [k.get('property')]) and i not in seen_known and not ctx.only:
             out.append('STALE-FINDING: property=%s [%s] no longer derived: %s' % (ctx.prop, k.get('id', '?'), k.get('what_fails', '')))
-    vdir = os.path.join(VERIF, 'evidence', 'violations')
+    no_ev = bool(os.environ.get('VERIF_NO_EVIDENCE'))
+    vdir = os.path.join(VERIF, 'evidence', 'violations') if not no_ev else os.path.join(os.environ.get('VERIF_REPO', '/tmp'), 'violations')
     code = 0
     if new:
         os.makedirs(vdir, exist_ok=True)
@@ -241,7 +242,7 @@ def finish(ctx, explanation, trusted=()):
         'wall_s': round(wall, 3),
         'violations': len(new),
     }
-    if not ctx.only:
+    if not ctx.only and not no_ev:
         os.makedirs(os.path.join(VERIF, 'evidence'), exist_ok=True)
         with open(os.path.join(VERIF, 'evidence', ctx.prop + '.json'), 'w') as f:
             json.dump(ev, f, indent=1, default=str)
